@@ -109,6 +109,7 @@ type c20case struct {
 	tree    string // clean untracked modified staged
 	version string
 	dry     string // absent true false
+	branches []string // branches (on the first commit) named like tags the tool may look for or create
 }
 
 func (cs c20case) id() string {
@@ -120,7 +121,11 @@ func (cs c20case) id() string {
 			t = append(t, n)
 		}
 	}
-	return fmt.Sprintf("tags=[%s] tree=%s version=%s dry-run=%s", strings.Join(t, ","), cs.tree, cs.version, cs.dry)
+	br := ""
+	if len(cs.branches) > 0 {
+		br = " branches=[" + strings.Join(cs.branches, ",") + "]"
+	}
+	return fmt.Sprintf("tags=[%s] tree=%s version=%s dry-run=%s%s", strings.Join(t, ","), cs.tree, cs.version, cs.dry, br)
 }
 
 func gitEnv(home string) []string {
@@ -222,6 +227,13 @@ func C20(c *core.Ctx) error {
 							continue
 						}
 						cases = append(cases, c20case{tags: names, annot: f, tree: tr, version: v, dry: d})
+						// branches that carry the name of a tag: a branch is not a tag -- it neither counts as an
+						// existing version nor may it keep the tool from creating or moving the tag of that name
+						if tr == "clean" && len(sub) <= 1 && len(f) == 0 || tr == "clean" && len(sub) == 1 && !f[0] {
+							for _, br := range [][]string{{"v1"}, {"v3"}, {"v1.9.1"}, {"v3", "v3.0.0"}, {"v1", "v1.10.1", "v2"}} {
+								cases = append(cases, c20case{tags: names, annot: f, tree: tr, version: v, dry: d, branches: br})
+							}
+						}
 					}
 				}
 			}
@@ -252,6 +264,12 @@ func C20(c *core.Ctx) error {
 				_, err = git(repo, "tag", t, c1)
 			}
 			if err != nil {
+				c.Harness("%v", err)
+				return
+			}
+		}
+		for _, b := range cs.branches {
+			if _, err := git(repo, "branch", b, c1); err != nil {
 				c.Harness("%v", err)
 				return
 			}
@@ -295,7 +313,7 @@ func C20(c *core.Ctx) error {
 		c.Ev.Add("transitions", 1)
 		c.Ev.Add("evaluations", 1)
 		c.Ev.Distinct("states", id)
-		replay := map[string]any{"case": id, "tags_on_first_commit": cs.tags, "annotated": cs.annot, "worktree": cs.tree, "VERSION": cs.version, "args": args,
+		replay := map[string]any{"case": id, "tags_on_first_commit": cs.tags, "annotated": cs.annot, "branches_on_first_commit": cs.branches, "worktree": cs.tree, "VERSION": cs.version, "args": args,
 			"exit": r.Exit, "refs_before": refs0, "refs_after": refs1, "stderr": firstN(r.Stderr, 500)}
 		if core.ResourceFailure(r) {
 			c.Skip("run timed out or was killed")
@@ -409,7 +427,7 @@ func C20(c *core.Ctx) error {
 	c.Ev.Set("outcome_histogram", outcomes)
 	c.Ev.Set("exhaustive", !c.Expired() && done == len(cases))
 	c.Ev.Set("cases", len(cases))
-	c.Ev.Set("bound", fmt.Sprintf("all subsets of size <=%d of the tag pool %v (lightweight / annotated%s) x work tree {clean,untracked,modified,staged} x VERSION %v x dry-run {absent,true,false}; quick restricts dirty trees to <=1 tag", maxSub, pool, map[bool]string{true: "", false: " / mixed"}[core.Quick(c.Tier)], versions))
+	c.Ev.Set("bound", fmt.Sprintf("all subsets of size <=%d of the tag pool %v (lightweight / annotated%s) x work tree {clean,untracked,modified,staged} x VERSION %v x dry-run {absent,true,false}; quick restricts dirty trees to <=1 tag; clean trees with <=1 lightweight tag additionally with branches named like tags ({v1}, {v3}, {v1.9.1}, {v3,v3.0.0}, {v1,v1.10.1,v2})", maxSub, pool, map[bool]string{true: "", false: " / mixed"}[core.Quick(c.Tier)], versions))
 	c.Ev.Set("rule", "scratch git repositories (two commits, tags on the first) built per case; the tools binary built from the working tree is run once; refs (object and peeled commit), HEAD and porcelain status are snapshotted before/after and compared with reference model A8; non-trivial = a case in which tagging is permitted and was verified to have happened exactly")
 	c.Ev.Assume("git CLI as observer; an independent 60-line semver comparison as reference; refusing to tag because of a dotted non-semver tag is accepted (the property states necessary conditions only)")
 	return nil
